@@ -17,6 +17,24 @@ CHECKS = {
     text='Raw round trip and the logical grids are enumerated completely; every command kind in every unit mode is sampled with in-range, out-of-range, tie and huge values. Each request is checked for protocol range/type and compared with exact rational arithmetic (nearest integer, both neighbours on ties).',
     design='DESIGN.md section 3, C07',
     note='Trusts verif/lang/units_exact.py (Fraction arithmetic) and the SimDevice protocol oracle; rgb values outside 0..100 only range-checked; half-open zone convention of the repository fake (A3).'),
+ 'C01': dict(
+    technique='Hypothesis-generated programs x populations, trace equality against an independent reference interpreter (differential), statement-level shrinking',
+    category='exploration',
+    text='Generated search over compositions of all documented statement forms; each case compares every device request, delay and printed value with the reference. Bounded by generator sizes (about 40 statements, nesting 3); says nothing beyond what was generated.',
+    design='DESIGN.md section 3, C01',
+    note='Trusts the reference interpreter (verif/lang/ref.py, written from docs/language.rst, DESIGN Appendix A), the printer (Appendix B) and the simulated lifxlan boundary; undefined behaviour is discarded and counted, never asserted.'),
+ 'C03': dict(
+    technique='Hypothesis-generated routine-heavy programs (name collisions by construction), trace equality against the reference interpreter',
+    category='exploration',
+    text='Generated search focused on scopes: parameters named like globals, assignments in loops in routines, returns from inside loops, nested and recursive calls, with every variable printed after each call.',
+    design='DESIGN.md section 3, C03',
+    note='Trusts the reference interpreter (verif/lang/ref.py, written from docs/language.rst, DESIGN Appendix A), the printer (Appendix B) and the simulated lifxlan boundary; undefined behaviour is discarded and counted, never asserted.'),
+ 'C04': dict(
+    technique='Hypothesis-generated loop-heavy programs over generated populations, trace equality against the reference interpreter',
+    category='exploration',
+    text='Generated search over every repeat form, counts 0..5, both directions, nesting to 4, breaks, light lists over 0..8 lights; iteration counts and loop values compared with the documented formulae.',
+    design='DESIGN.md section 3, C04',
+    note='Trusts the reference interpreter (verif/lang/ref.py, written from docs/language.rst, DESIGN Appendix A), the printer (Appendix B) and the simulated lifxlan boundary; undefined behaviour is discarded and counted, never asserted.'),
 }
 PENDING_REASON = 'check not built yet in this session; planned as described in DESIGN.md (property-based / fuzzing check, same runner)'
 
